@@ -660,6 +660,12 @@ def part_valgrind(c, bindir_rel, hx):
     for t, sname in stream_matrix(c):
         if len(t.stdin) > 20000 or sname.endswith("@file"):
             continue
+        if sname == "options" and ("-opt " in t.label or "-hostile-args" in t.label):
+            # the generated option matrix is large: memcheck sees every 4th of what the sanitizer build saw
+            nopt = getattr(part_valgrind, "_n", 0) + 1
+            part_valgrind._n = nopt
+            if nopt % 4:
+                continue
         if sname == "options" or c.tier == "thorough" or sname in VALGRIND_QUICK:
             jobs.append((t, sname))
 
